@@ -142,6 +142,10 @@ class Interp:
     def _nav(self, st, oid, v, path, done):
         step = path[0]
         rest = path[1:]
+        if v[0] == "struct" and v[1] == self.r.entry and oid is not None and oid[0] == "E":
+            t_ = v[2].get("#tid")
+            if isinstance(t_, tuple) and t_ and t_[0] == "freed" and not str(step).startswith("#"):
+                self.gadd(st, "freed_read", "%s" % (step,))
         # special: link fields of entries are modelled by the traversal model, not stored
         if v[0] == "struct" and v[1] == self.r.entry and step in self.r.links and step not in v[2]:
             res = self._read_link(st, oid, v, step)
@@ -258,7 +262,7 @@ class Interp:
             if ent is not None and ent[0] == "struct" and ent[1] == r.entry:
                 tid = ent[2].get("#tid")
                 old = ent[2].get(r.E_SIZE)
-                if isinstance(tid, tuple) and tid and tid[0] == "stale":
+                if isinstance(tid, tuple) and tid and tid[0] in ("stale", "freed"):
                     self._havoc_table(st, tid[1])
                 elif tid is not None and is_int(old) and is_int(val):
                     self._table_delta(st, tid, val[1] - old[1], 0)
@@ -275,7 +279,7 @@ class Interp:
             tgt0 = st.store.get(oid)
             if tgt0 is not None and tgt0[0] == "struct" and tgt0[1] == r.entry:
                 t0 = tgt0[2].get("#tid")
-                if isinstance(t0, tuple) and t0 and t0[0] == "stale":
+                if isinstance(t0, tuple) and t0 and t0[0] in ("stale", "freed"):
                     # a store through a handle to an entry that may already have been removed from / moved out of its table
                     self.gadd(st, "stale_write", "%s.%s" % (oid[0], path[-1]))
         if path and path[-1] in r.links and oid[0] != "L":
@@ -476,6 +480,7 @@ class Interp:
                     tgt = self.resolve_ptr(st, raw)[0]
                     # linked next to the seal on the MRU side?  (prev = seal, next = seal's MRU link) -- recorded as promotion
                     self.gadd(st, "promoted", tgt)
+                    self.gadd(st, "promoted_any", "yes")
                     self.gadd(st, "maypromoted", "yes")
                     self.gdel(st, "unlinked", tgt)
                     self.gdel(st, "unhinged", tgt)
@@ -556,11 +561,33 @@ class Interp:
         outs = fr.run(st)
         res = []
         for (rv, s) in outs:
-            # drop the frame's locals
+            # drop the frame's locals; a table that dies with the frame frees its allocation
             for k in [k for k in s.store if k[0] == "L" and k[1] == fid]:
+                self.table_dies(s, s.store[k])
                 del s.store[k]
             res.append((rv, s))
         return res
+
+    def table_dies(self, st, v, depth=0):
+        """a RawTable value goes out of scope: entries materialised from its storage now point into freed memory"""
+        if depth > 3 or not isinstance(v, tuple) or not v:
+            return
+        if v[0] == "struct":
+            if v[1] == RAWTABLE:
+                tid = v[2].get("#tid")
+                if tid is None:
+                    return
+                for oid, ev in list(st.store.items()):
+                    if oid[0] == "E" and isinstance(ev, tuple) and ev[0] == "struct" and ev[1] == self.r.entry:
+                        t = ev[2].get("#tid")
+                        base = t[1] if (isinstance(t, tuple) and t and t[0] in ("stale", "freed")) else t
+                        if base == tid:
+                            f = dict(ev[2])
+                            f["#tid"] = ("freed", tid)
+                            st.store[oid] = ("struct", ev[1], f)
+                return
+            for x in v[2].values():
+                self.table_dies(st, x, depth + 1)
 
 
 class Frame:
@@ -768,7 +795,7 @@ class Frame:
             work.sort(key=lambda b: self.rpo_idx.get(b, 1 << 30))
             bb = work.pop(0)
             visits[bb] = visits.get(bb, 0) + 1
-            if visits[bb] > 9:
+            if visits[bb] > 16:
                 raise Unsupported("no fixpoint in %s bb%d" % (self.body.path, bb))
             states = ins.get(bb, [])
             out_edges = []
@@ -880,7 +907,9 @@ class Frame:
                 val = self.rvalue(st, s["rv"], s["place"]["ty"])
                 self.write_place(st, s["place"], val)
             elif k == "dead":
-                st.store.pop(self.L(s["l"]), None)
+                dv = st.store.pop(self.L(s["l"]), None)
+                if dv is not None:
+                    ip.table_dies(st, dv)
             elif k == "setdiscr":
                 pass
         t = bl["term"]
@@ -1204,7 +1233,7 @@ class Joiner:
                 continue
             if oid[0] == "G":
                 nv = new.store.get(oid, frozenset())
-                if oid[1] == "promoted":
+                if oid[1] in ("promoted", "promoted_any"):
                     if not (vo <= nv):
                         return False
                 else:
@@ -1258,7 +1287,9 @@ class Joiner:
             return self._leq_int(x[1], y[1])
         if kx == "struct" and ky == "struct" and x[1] == y[1]:
             for k, vy in y[2].items():
-                if k in ("#tid", "#seal_of", "#removed_from", "#req"):
+                if k == "#req":
+                    continue
+                if k in ("#tid", "#seal_of", "#removed_from"):
                     if vy is not None and x[2].get(k) != vy:
                         return False
                     continue
@@ -1357,7 +1388,7 @@ class Joiner:
         for gk in gkeys:
             va = frozenset(ren_a.get(x, x) for x in a.store.get(gk, frozenset()))
             vb = frozenset(ren_b.get(x, x) for x in b.store.get(gk, frozenset()))
-            if gk[1] == "promoted":
+            if gk[1] in ("promoted", "promoted_any"):
                 out.store[gk] = va & vb
             else:
                 both = va & vb
@@ -1472,6 +1503,8 @@ class Joiner:
         if kx == "struct" and ky == "struct" and x[1] == y[1]:
             f = {}
             for k in set(x[2]) | set(y[2]):
+                if k == "#req":
+                    continue
                 if k in x[2] and k in y[2]:
                     if k == "#cur":
                         f[k] = self.jcur(x[2][k], y[2][k])
@@ -1481,10 +1514,11 @@ class Joiner:
                             f[k] = tx
                         else:
                             def base(t):
-                                return t[1] if (isinstance(t, tuple) and t and t[0] == "stale") else t
-                            st_x = isinstance(tx, tuple) and tx and tx[0] == "stale"
-                            st_y = isinstance(ty_, tuple) and ty_ and ty_[0] == "stale"
-                            f[k] = ("stale", base(tx)) if (st_x or st_y) and base(tx) == base(ty_) else None
+                                return t[1] if (isinstance(t, tuple) and t and t[0] in ("stale", "freed")) else t
+                            st_x = isinstance(tx, tuple) and tx and tx[0] in ("stale", "freed")
+                            st_y = isinstance(ty_, tuple) and ty_ and ty_[0] in ("stale", "freed")
+                            fr_ = (isinstance(tx, tuple) and tx and tx[0] == "freed") or (isinstance(ty_, tuple) and ty_ and ty_[0] == "freed")
+                            f[k] = (("freed" if fr_ else "stale"), base(tx)) if (st_x or st_y) and base(tx) == base(ty_) else None
                     elif k == "#seal_of":
                         f[k] = x[2][k] if x[2][k] == y[2][k] else None
                     else:
